@@ -307,3 +307,27 @@ pub fn non_transitive(reg: &PortableRegistry, ids: &[u32]) -> bool {
 pub fn coincidence_involved(reg: &PortableRegistry, ids: &[u32], tainted: &BTreeSet<u32>) -> bool {
     reachable(reg, ids, true, true).iter().any(|i| tainted.contains(i))
 }
+
+
+/// Recorded field type names are optional in a registry (hand-written or stripped metadata): drop
+/// each one with probability `p`. Returns how many were dropped.
+pub fn drop_type_names<R: rand::Rng>(rng: &mut R, reg: &mut PortableRegistry, p: f64) -> u64 {
+    use scale_info::TypeDef;
+    let mut dropped = 0u64;
+    for t in reg.types.iter_mut() {
+        let mut strip = |fs: &mut Vec<scale_info::Field<scale_info::form::PortableForm>>| {
+            for f in fs.iter_mut() {
+                if f.type_name.is_some() && rng.gen_bool(p) {
+                    f.type_name = None;
+                    dropped += 1;
+                }
+            }
+        };
+        match &mut t.ty.type_def {
+            TypeDef::Composite(c) => strip(&mut c.fields),
+            TypeDef::Variant(v) => v.variants.iter_mut().for_each(|v| strip(&mut v.fields)),
+            _ => {}
+        }
+    }
+    dropped
+}
